@@ -4,6 +4,8 @@ import Rio.Spec.TreeHash
 namespace Rio.Driver
 open Rio
 
+def b01 (b : Bool) : String := if b then "1" else "0"
+
 def kindOfTok : String → Option Kind
   | "f" => some .file | "d" => some .dir | "L" => some .symlink | "p" => some .fifo
   | "S" => some .socket | "D" => some .device | "c" => some .chardev | "h" => some .hardlink
